@@ -298,6 +298,15 @@ def generate(rng, tier):
         A("xpub.to_string", xpub_args(hpk, rb(rng, cl), 1, 1, rb(rng, 260)))
     A("xprv.to_string", xprv_args(hk, 1, b"", 0, 0, b"")); A("xprv.derive", xprv_args(hk, 1, b"", 0, 0, b"") + ["0"])
 
+    # 2d. call history on ONE object: path A, path B, path A again, a sibling object with path A, the object afterwards
+    hist = [("m/0", "m/1"), ("m/1'", "m/1"), ("m/2/3", "m/2/4")] if quick else \
+           [("m/0", "m/1"), ("m/1'", "m/1"), ("m/2/3", "m/2/4"), ("m/0'", "m/0h"), ("M/7", "m/7"), ("m/1/2'", "m/1/2")]
+    for (pa_, pb_) in hist:
+        A("xprv.history", xprv_args(hk, 1, hcc, 2, 9, tfp) + [T(pa_), T(pb_)])
+    for (pa_, pb_) in [("m/0", "m/1"), ("m/2/3", "m/2/4")] + ([] if quick else [("m/5", "m/5'"), ("M/7", "m/7")]):
+        A("xpub.history", xpub_args(hpk, hcc, 2, 9, tfp) + [T(pa_), T(pb_)])
+    A("xprv.history", xprv_args(hk, 1, hcc, 254, 9, tfp) + [T("m/0"), T("m/0/0")])
+
     # 3. explicit parents x boundary indices
     idxs = [0, 1, H - 1, H, H + 1, 2 ** 32 - 1]
     nparents = 1 if quick else 4
